@@ -53,8 +53,8 @@ func counterFields(p *Prog) []counterField {
 		st := ct.Underlying().(*types.Struct)
 		for i := 0; i < st.NumFields(); i++ {
 			f := st.Field(i)
-			if f.Name() == "size" && isIntType(f.Type()) {
-				out = append(out, counterField{ct, i, f.Name()})
+			if fieldN(ct, i) == "size" && isIntType(f.Type()) {
+				out = append(out, counterField{ct, i, fieldN(ct, i)})
 			}
 		}
 	}
@@ -138,10 +138,10 @@ func successGuard(p *Prog, b *ssa.BasicBlock) string {
 		switch x := v.(type) {
 		case *ssa.Call:
 			if cal := StaticCallee(&x.Call); cal != nil {
-				if cal.Name() == "withinRange" && pol {
+				if fnName(cal) == "withinRange" && pol {
 					return "withinRange(index)"
 				}
-				if cal.Name() == "Empty" && !pol {
+				if fnName(cal) == "Empty" && !pol {
 					return "!Empty()"
 				}
 			}
@@ -198,7 +198,43 @@ func gcStoresField(g *GC, field string) bool {
 	return false
 }
 
-// predecessorsFor: guarded commands that `goto` cut k assigning φ k.j a constant consistent with the boolean atom on that φ.
+// phiAtom recognises a guard atom that tests a loop-header φ: a boolean flag (φ / !φ) or a pointer against nil
+// ((!= φ nil) / (== φ nil)). want is the φ state the atom asserts: true = flag set / pointer non-nil.
+func phiAtom(a *Term) (phi *Term, want bool, ok bool) {
+	neg := false
+	if a.Op == "!" && len(a.Args) == 1 {
+		a, neg = a.Args[0], true
+	}
+	switch {
+	case a.Op == "φ":
+		return a, !neg, true
+	case (a.Op == "==" || a.Op == "!=") && len(a.Args) == 2:
+		x, y := a.Args[0], a.Args[1]
+		if y.Op == "φ" {
+			x, y = y, x
+		}
+		if x.Op == "φ" && y.String() == "#:nil" {
+			return x, (a.Op == "!=") != neg, true
+		}
+	}
+	return nil, false, false
+}
+
+// phiState: the state (set / non-nil) a term assigned to such a φ denotes, if it is evident.
+func phiState(a *Term) (state bool, known bool) {
+	if b, ok := a.constBool(); ok {
+		return b, true
+	}
+	if a.String() == "#:nil" {
+		return false, true
+	}
+	if a.Op == "new" {
+		return true, true
+	}
+	return false, false
+}
+
+// predecessorsFor: guarded commands that `goto` cut k assigning φ k.j a value whose state (flag set / pointer non-nil) is want.
 func predecessorsFor(g *GCNF, k, j int, want bool) (preds []*GC, complete bool) {
 	complete = true
 	for _, x := range g.GCs {
@@ -206,7 +242,7 @@ func predecessorsFor(g *GCNF, k, j int, want bool) (preds []*GC, complete bool) 
 			continue
 		}
 		a := x.Exit.Args[j]
-		if b, ok := a.constBool(); ok {
+		if b, ok := phiState(a); ok {
 			if b == want {
 				preds = append(preds, x)
 			}
@@ -214,20 +250,14 @@ func predecessorsFor(g *GCNF, k, j int, want bool) (preds []*GC, complete bool) 
 		}
 		if a.Op == "φ" && a.Leaf == fmt.Sprintf("%d.%d", k, j) && x.From == k {
 			// pass-through: its own guard fixes the value
-			val, known := false, false
+			known := false
 			for _, gd := range x.Guards {
-				if gd.Op == "φ" && gd.Leaf == a.Leaf {
-					val, known = true, true
-				}
-				if gd.Op == "!" && gd.Args[0].Op == "φ" && gd.Args[0].Leaf == a.Leaf {
-					val, known = false, true
+				if ph, _, ok := phiAtom(gd); ok && ph.Leaf == a.Leaf {
+					known = true
 				}
 			}
-			if known && val != want {
-				continue
-			}
-			if known && val == want {
-				continue // stays in the same state: its own predecessors are the ones that matter
+			if known {
+				continue // stays in the same state (or is excluded by it): its own predecessors are the ones that matter
 			}
 		}
 		complete = false
@@ -441,6 +471,11 @@ func incrementPaired(c *Ctx, cs counterStore, gc *GCNF, g *GC) (bool, string) {
 					nnew++
 				}
 			}
+			for _, a := range x.Exit.Args {
+				if isNewTerm(a) {
+					nnew++ // the new element is carried to the next round (chain under construction, spliced in afterwards)
+				}
+			}
 			if nnew < 1 {
 				return false, "a loop iteration over the variadic values links no new element while the counter grows by len(values)"
 			}
@@ -461,14 +496,8 @@ func incrementPaired(c *Ctx, cs counterStore, gc *GCNF, g *GC) (bool, string) {
 	}
 	// flag-controlled loop exit: all predecessors that set the flag allocate and link
 	for _, a := range g.Guards {
-		var phi *Term
-		want := true
-		if a.Op == "φ" {
-			phi = a
-		} else if a.Op == "!" && a.Args[0].Op == "φ" {
-			phi, want = a.Args[0], false
-		}
-		if phi == nil {
+		phi, want, isPhi := phiAtom(a)
+		if !isPhi {
 			continue
 		}
 		var k, j int
@@ -634,13 +663,14 @@ func ruleR12g(c *Ctx) *RuleResult {
 		st := ct.Underlying().(*types.Struct)
 		for i := 0; i < st.NumFields(); i++ {
 			f := st.Field(i)
-			if !configFieldNames[f.Name()] {
+			fname := fieldN(ct, i)
+			if !configFieldNames[fname] {
 				continue
 			}
-			if f.Name() == "m" && p.TypeKey(ct) != "trees/btree.Tree" {
+			if fname == "m" && p.TypeKey(ct) != "trees/btree.Tree" {
 				continue
 			}
-			key := p.TypeKey(ct) + "." + f.Name()
+			key := p.TypeKey(ct) + "." + fname
 			var bad []string
 			n := 0
 			for _, fn := range p.Funcs {
@@ -695,23 +725,24 @@ func ruleR12g(c *Ctx) *RuleResult {
 		// contained containers
 		for i := 0; i < st.NumFields(); i++ {
 			f := st.Field(i)
+			fname := fieldN(ct, i)
 			inner := namedOf(f.Type())
 			if inner == nil || !p.T.IsContainer(inner) {
 				continue
 			}
 			ok := false
 			for _, ef := range g.Effects {
-				if ef.Op == "do" && strings.HasSuffix(ef.Leaf, ").Clear") && len(ef.Args) == 1 && ef.Args[0].any(func(t *Term) bool { return t.Op == "fa" && t.Leaf == f.Name() }) {
+				if ef.Op == "do" && strings.HasSuffix(ef.Leaf, ").Clear") && len(ef.Args) == 1 && ef.Args[0].any(func(t *Term) bool { return t.Op == "fa" && t.Leaf == fname }) {
 					ok = true
 				}
-				if storeToField(ef, f.Name()) && (ef.Args[1].Op == "res" || ef.Args[1].Op == "new") {
+				if storeToField(ef, fname) && (ef.Args[1].Op == "res" || ef.Args[1].Op == "new") {
 					ok = true // replaced by a freshly constructed container
 				}
 			}
 			if ok {
-				facts = append(facts, f.Name()+".Clear()")
+				facts = append(facts, fname+".Clear()")
 			} else {
-				bad = append(bad, "contained container "+f.Name()+" is not cleared")
+				bad = append(bad, "contained container "+fname+" is not cleared")
 			}
 		}
 		// fields Size() reads directly + frozen traversal roots
@@ -722,14 +753,14 @@ func ruleR12g(c *Ctx) *RuleResult {
 					if fa, ok := in.(*ssa.FieldAddr); ok && stripChange(fa.X) == ssa.Value(sz.Params[0]) {
 						fi := st.Field(fa.Field)
 						if inner := namedOf(fi.Type()); inner == nil || !p.T.IsContainer(inner) {
-							need[fi.Name()] = true
+							need[fieldN(ct, fa.Field)] = true
 						}
 					}
 				}
 			}
 		}
 		for i := 0; i < st.NumFields(); i++ {
-			if n := st.Field(i).Name(); n == "Root" || n == "first" {
+			if n := fieldN(ct, i); n == "Root" || n == "first" {
 				need[n] = true
 			}
 		}
@@ -759,7 +790,7 @@ func ruleR12g(c *Ctx) *RuleResult {
 					}
 				}
 				if ef.Op == "builtin" && ef.Leaf == "clear" && ef.any(func(t *Term) bool { return t.Op == "fa" && t.Leaf == n }) {
-					if _, isMap := fieldByName(st, n).Type().Underlying().(*types.Map); isMap {
+					if _, isMap := fieldByPinnedName(ct, n).Type().Underlying().(*types.Map); isMap {
 						ok = true
 					}
 				}
@@ -771,7 +802,7 @@ func ruleR12g(c *Ctx) *RuleResult {
 			}
 		}
 		// a ring is empty exactly when start == end (and not full): Clear must leave the two indices equal
-		if fieldByName(st, "start") != nil && fieldByName(st, "end") != nil {
+		if fieldByPinnedName(ct, "start") != nil && fieldByPinnedName(ct, "end") != nil {
 			var sv, ev string
 			for _, ef := range g.Effects {
 				if storeToField(ef, "start") && ef.Args[0].Args[0].String() == "p:0" {
@@ -841,14 +872,16 @@ func isIdentChar(b byte) bool {
 	return b == '_' || (b >= '0' && b <= '9') || (b >= 'a' && b <= 'z') || (b >= 'A' && b <= 'Z')
 }
 
-func fieldByName(st *types.Struct, n string) *types.Var {
+func fieldByPinnedName(ct *types.Named, n string) *types.Var {
+	st := ct.Underlying().(*types.Struct)
 	for i := 0; i < st.NumFields(); i++ {
-		if st.Field(i).Name() == n {
+		if fieldN(ct, i) == n {
 			return st.Field(i)
 		}
 	}
 	return nil
 }
+
 
 // startOfTerm: the constant a string term starts with (through concatenation, TrimRight and loop-carried φs).
 func startOfTerm(gc *GCNF, t *Term, depth int) (string, bool) {
